@@ -76,6 +76,8 @@ enum Mode {
     ReorderIter,
     /// watermark safety (and reorder) at every probe of the body of a `replay` loop
     SafetyLoop,
+    /// the timestamp of fold results inside a `replay` body whose content changes per round
+    FoldLoop,
 }
 
 /// The classifier of the open known findings of C06 (see known_findings.json).
@@ -174,7 +176,7 @@ fn run_mode(ctx: &Ctx, mode: Mode, report: &mut Report, cases: u32, stream: u64)
         let mut ch = Chooser::new(choices);
         let prof = TsProfile {
             windows: mode == Mode::Safety || mode == Mode::SafetyLoop,
-            in_replay: mode == Mode::SafetyLoop,
+            in_replay: mode == Mode::SafetyLoop || mode == Mode::FoldLoop,
             non_exact_count_windows: !f4_open,
             reorder_only: mode == Mode::Reorder,
             single_replica_iterations: mode == Mode::ReorderIter,
@@ -189,6 +191,12 @@ fn run_mode(ctx: &Ctx, mode: Mode, report: &mut Report, cases: u32, stream: u64)
             Mode::Fold => {
                 job.stages.retain(|s| !matches!(s, TsStage::GlobalFold | TsStage::KeyedFold(_) | TsStage::CountWindow { .. } | TsStage::EventWindow { .. } | TsStage::DropTimestamps));
                 job.stages.push(if ch.flag(1, 2) { TsStage::GlobalFold } else { TsStage::KeyedFold([1, 2, 3, 7][ch.below(4)]) });
+            }
+            Mode::FoldLoop => {
+                job.stages.retain(|s| !matches!(s, TsStage::GlobalFold | TsStage::KeyedFold(_) | TsStage::CountWindow { .. } | TsStage::EventWindow { .. } | TsStage::DropTimestamps | TsStage::Reorder));
+                job.stages.insert(0, TsStage::RoundFilter);
+                job.stages.push(if ch.flag(2, 3) { TsStage::GlobalFold } else { TsStage::KeyedFold([1, 2, 3, 7][ch.below(4)]) });
+                job.stages.push(TsStage::DropTimestamps);
             }
             Mode::Safety => {}
             Mode::SafetyLoop => {
@@ -206,7 +214,7 @@ fn run_mode(ctx: &Ctx, mode: Mode, report: &mut Report, cases: u32, stream: u64)
         for cfg in &cfgs {
             let n = counter.get();
             counter.set(n + 1);
-            let replay = json!({"property": id, "tsjob": job, "configs": [cfg], "mode": match mode { Mode::Safety => "safety", Mode::SafetyLoop => "safety_loop", Mode::Reorder | Mode::ReorderIter => "reorder", Mode::Fold => "fold" }});
+            let replay = json!({"property": id, "tsjob": job, "configs": [cfg], "mode": match mode { Mode::Safety => "safety", Mode::SafetyLoop => "safety_loop", Mode::Reorder | Mode::ReorderIter => "reorder", Mode::Fold | Mode::FoldLoop => "fold" }});
             let run = match run_ts(&job, cfg, AddrSeed { shard: ctx.shard, job: n }, ctx.tier, shrinking) {
                 Ok(r) => r,
                 Err(message) => return Case::Fail { message, replay },
@@ -271,7 +279,7 @@ fn run_mode(ctx: &Ctx, mode: Mode, report: &mut Report, cases: u32, stream: u64)
                         }
                     }
                 }
-                Mode::Fold => {
+                Mode::Fold | Mode::FoldLoop => {
                     for (before, after, st) in stage_probe_ids(&job) {
                         let key = match st {
                             TsStage::GlobalFold => None,
@@ -280,7 +288,7 @@ fn run_mode(ctx: &Ctx, mode: Mode, report: &mut Report, cases: u32, stream: u64)
                         };
                         match fold_timestamp_oracle(&g, before, after, key) {
                             Ok(k) => {
-                                if k >= 1 {
+                                if k >= 1 && (mode == Mode::Fold || k >= 2) {
                                     nontrivial = Some(fingerprint(&(&job, cfg)));
                                 }
                             }
@@ -298,7 +306,7 @@ fn run_mode(ctx: &Ctx, mode: Mode, report: &mut Report, cases: u32, stream: u64)
                 TsStage::KeyedMap(_) => "group_by", TsStage::ReplicateOne => "replication_one", TsStage::Batch(_) => "batch_mode",
                 TsStage::Reorder => "reorder", TsStage::GlobalFold => "fold", TsStage::KeyedFold(_) => "keyed_fold",
                 TsStage::CountWindow { .. } => "count_window", TsStage::EventWindow { .. } => "event_time_window",
-                TsStage::Merge(_) => "merge", TsStage::Zip(_) => "zip", TsStage::DropTimestamps => "drop_timestamps",
+                TsStage::Merge(_) => "merge", TsStage::Zip(_) => "zip", TsStage::DropTimestamps => "drop_timestamps", TsStage::RoundFilter => "round_dependent_filter",
             }));
         }
         rep.class_if(job.source.iterations > 1, "multi_iteration_source");
@@ -494,6 +502,7 @@ fn run(ctx: &Ctx, mode: &str) -> Report {
         (_, "reorder") => run_mode(ctx, Mode::Reorder, &mut report, ctx.cases(240, 6000), 2),
         (_, "reorder_iter") => run_mode(ctx, Mode::ReorderIter, &mut report, ctx.cases(240, 6000), 4),
         (_, "fold_ts") => run_mode(ctx, Mode::Fold, &mut report, ctx.cases(160, 4000), 3),
+        (_, "fold_ts_loop") => run_mode(ctx, Mode::FoldLoop, &mut report, ctx.cases(120, 3000), 6),
         (_, "event_e2e") => run_event_e2e(ctx, &mut report, ctx.cases(240, 6000)),
         (_, "interval") => run_interval(ctx, &mut report, ctx.cases(240, 6000)),
         _ => {}
